@@ -42,6 +42,12 @@ GEN = {
         # operator nodes (Derivative, Integral, Sum, Product, IndexedSum/Product, factorial) as base of a power, as
         # factorial argument, as left / right factor, under a sign, in a denominator
         ("oper4", dict(MaxLen=4, LeafNames={"xt", "a", "n2"}, OpNames=OPERATORS | {"mul2", "add2", "neg", "sq", "inv", "cube"})),
+        # products with two operator factors (Derivative * Derivative, IndexedProduct * IndexedSum, Derivative * Sum ..)
+        ("oper2x5", dict(MaxLen=5, LeafNames={"xt", "a"}, OpNames={"ddt", "isum", "iprod", "sumk", "mul2"})),
+        # non-square dense matrices, read back structurally (rows of elements)
+        ("matrix7", dict(MaxLen=7, LeafNames={"a", "b", "n2"}, OpNames={"mat23", "mat32", "mat13", "mat31"})),
+        # floating-point literals incl. scientific notation with decimal exponents that are multiples of ten
+        ("float4", dict(MaxLen=4, LeafNames={"f10", "f20", "fh", "fs", "a"}, OpNames={"mul2", "add2", "div", "neg", "sq", "inv"})),
     ],
     "thorough": [
         ("all5", dict(MaxLen=5, LeafNames={"a", "b", "c", "n2", "nm1", "h", "mt"},
@@ -50,6 +56,9 @@ GEN = {
         ("deep8", dict(MaxLen=8, LeafNames={"a", "nm2"}, OpNames={"add2", "mul2", "div", "pow"})),
         ("deep7", dict(MaxLen=7, LeafNames={"a", "b", "mt"}, OpNames={"add2", "mul2", "div", "pow", "neg"})),
         ("fn6", dict(MaxLen=6, LeafNames={"a", "c", "nm1"}, OpNames={"add2", "mul2", "div", "sqrt", "pm12", "exp", "log", "f2"})),
+        ("oper2x6", dict(MaxLen=6, LeafNames={"xt", "a"}, OpNames={"ddt", "isum", "iprod", "sumk", "int", "mul2"})),
+        ("matrix7", dict(MaxLen=7, LeafNames={"a", "b", "n2", "h"}, OpNames={"mat23", "mat32", "mat13", "mat31"})),
+        ("float5", dict(MaxLen=5, LeafNames={"f10", "f20", "fh", "fs", "a"}, OpNames={"mul2", "add2", "div", "neg", "sq", "inv", "sqrt"})),
         ("oper5", dict(MaxLen=5, LeafNames={"xt", "a", "nm1"}, OpNames=OPERATORS | {"mul2", "add2", "sq", "inv", "sqrt"})),
         ("oper4", dict(MaxLen=4, LeafNames={"xt", "a", "b", "n2", "mt"},
                        OpNames=OPERATORS | {"mul2", "mul3", "add2", "neg", "div", "sq", "inv", "pm32", "pow", "exp", "sin"})),
@@ -78,7 +87,10 @@ def setup(mode: str):
            20: lambda e: sp.Derivative(e, t), 21: lambda e: sp.Integral(e, t),
            22: lambda e: sp.Sum(e, (k, 1, n)), 23: lambda e: sp.Product(e, (k, 1, n)), 24: sp.factorial,
            25: lambda e: IndexedSum(e, global_index), 26: lambda e: IndexedProduct(e, global_index)}
-    _ENV = dict(mode=mode, sp=sp, syms=syms, fns=fns, csts={1: sp.pi},
+    fns.update({27: lambda *a: sp.Matrix(2, 3, list(a)), 28: lambda *a: sp.Matrix(3, 2, list(a)),
+                29: lambda *a: sp.Matrix(1, 3, list(a)), 30: lambda *a: sp.Matrix(3, 1, list(a))})
+    csts = {1: sp.pi, 10: sp.Float("1e-10"), 11: sp.Float("2.5e20"), 12: sp.Float("0.5"), 13: sp.Float("8.85e-10")}
+    _ENV = dict(mode=mode, sp=sp, syms=syms, fns=fns, csts=csts,
                 render=code_str if mode == "code" else latex_str,
                 parse=pp.parse_code if mode == "code" else pp.parse_latex)
     return _ENV
